@@ -193,10 +193,11 @@ func Lookup(ctx context.Context, u *uni.Universe, g storage.Graph, q *Q, lo *sto
 
 // GraphObs is the observation of one graph name after an operation.
 type GraphObs struct {
-	G  string `json:"g"`
-	X  bool   `json:"x"`  // Store.Graph succeeded
-	Ls []int  `json:"ls"` // Graph.Triples(DefaultLookup) in delivery order
-	Ex []int  `json:"ex"` // universe triples for which Graph.Exist is true
+	G   string `json:"g"`
+	X   bool   `json:"x"`   // Store.Graph succeeded
+	Ls  []int  `json:"ls"`  // Graph.Triples(DefaultLookup) in delivery order
+	Ex  []int  `json:"ex"`  // universe triples for which Graph.Exist is true
+	Ex2 []int  `json:"ex2"` // the same with every anchor written in another zone (TripleAlt)
 }
 
 // Observe returns what GraphNames delivers (sorted) and the observation of every universe name.
@@ -220,7 +221,7 @@ func Observe(ctx context.Context, u *uni.Universe, st storage.Store, names []str
 	}
 	obs := make([]GraphObs, 0, len(names))
 	for _, n := range names {
-		o := GraphObs{G: n, Ls: []int{}, Ex: []int{}}
+		o := GraphObs{G: n, Ls: []int{}, Ex: []int{}, Ex2: []int{}}
 		g, err := st.Graph(ctx, n)
 		if err == nil && g != nil {
 			o.X = true
@@ -237,6 +238,13 @@ func Observe(ctx context.Context, u *uni.Universe, st storage.Store, names []str
 				} else if ok {
 					o.Ex = append(o.Ex, i)
 				}
+				// the same question with the anchors written in another zone: the same triple
+				ok, eerr = g.Exist(ctx, u.TripleAlt(i))
+				if eerr != nil {
+					o.Ex2 = append(o.Ex2, -1)
+				} else if ok {
+					o.Ex2 = append(o.Ex2, i)
+				}
 			}
 		}
 		obs = append(obs, o)
@@ -249,6 +257,20 @@ func Batch(u *uni.Universe, b []int) []*triple.Triple {
 	ts := make([]*triple.Triple, 0, len(b))
 	for _, i := range b {
 		ts = append(ts, u.Triple(i))
+	}
+	return ts
+}
+
+// BatchSpelled concretises a batch of triple ids, each occurrence in the stored or in the alternative spelling
+// of its anchors as pick(k) says (k = position in the batch).
+func BatchSpelled(u *uni.Universe, b []int, pick func(k int) bool) []*triple.Triple {
+	ts := make([]*triple.Triple, 0, len(b))
+	for k, i := range b {
+		if pick(k) {
+			ts = append(ts, u.TripleAlt(i))
+		} else {
+			ts = append(ts, u.Triple(i))
+		}
 	}
 	return ts
 }
